@@ -26,6 +26,16 @@ def make_case(G, i):
         fr = G.poly_frame()
         a = G.polygon(3, 6, fr)
         b = G.polygon(3, 6, fr)
+        if R.random() < 0.3 and len(b) >= 4:
+            # an edge of a passes exactly THROUGH A VERTEX of b and leaves b through the interior of a non-adjacent edge
+            j = R.randrange(len(b))
+            v_ = b[j]
+            m_ = (j + 2) % len(b)
+            q_ = mul(F(1, 2), add(b[m_], b[(m_ + 1) % len(b)]))
+            d_ = sub(q_, v_)
+            side = sub(b[(j + 1) % len(b)], v_)
+            a = [sub(v_, mul(R.choice([F(1, 2), F(1)]), d_)), add(q_, mul(R.choice([F(1, 2), F(1)]), d_)), add(add(v_, mul(F(1, 2), d_)), mul(R.choice([F(2), F(-2), F(3)]), side))]
+            return G.shuffled_polygon(a), G.shuffled_polygon(b), tpl + '+edge-through-vertex'
         if R.random() < 0.6:
             t = add(mul(F(R.randint(-2, 2), 2), fr['d']), mul(F(R.randint(-1, 1), 2), fr['v']))
             b = [add(p, t) for p in b]
@@ -47,6 +57,8 @@ def make_case(G, i):
         pts = []
         for _ in range(3):
             pts.append(G.body_feature_point(K0)[0])
+        if R.random() < 0.35 and len(vs) >= 5:
+            pts = R.sample(vs, 3)      # a plane through three VERTICES (mostly not spanning a face): it cuts through the body along a diagonal section
         if E.affine_rank(pts) != 2:
             pts = [vs[0], vs[1], G.comb(vs)]
         if E.affine_rank(pts) != 2:
